@@ -280,7 +280,7 @@ Definition Vr (l : limbs) : list Z := pval n P rb l.
 Definition Vd (D : plimbs) : list Z := pval n (P + lo) ab D.
 
 Hypothesis nrm_shape : forall D, shaped n rsz (nrm D).
-Hypothesis nrm_no_overflow : forall D u c, Z.abs (nth c (lim (nrm D) u) 0) <= 2 ^ 61.
+Hypothesis nrm_no_overflow : forall D, wfl n D -> length D = dsz -> dom D -> forall u c, Z.abs (nth c (lim (nrm D) u) 0) <= 2 ^ 61.
 (* the value fact of the per-column big-normalisation (C08): one unit of the result's last limb, on the torus *)
 Hypothesis normalize_value_ok : forall D, wfl n D -> length D = dsz -> dom D ->
   length (eps D) = n /\ length (kap D) = n /\
@@ -294,6 +294,9 @@ Hypothesis Hbsz : (1 <= bsz)%nat.
 
 Definition Cn (i j : nat) : plimbs := cnv_apply fft n dsz hi (colsel A i) (colsel B j).
 Definition Pw (i j : nat) : plimbs := cnv_pairwise fft n dsz hi (colsel A i) (colsel A j) (colsel B i) (colsel B j) false.
+
+Hypothesis Hdom_diag : forall i, (i < cols)%nat -> dom (Cn i i).
+Hypothesis Hdom_pair : forall i j, (i < cols)%nat -> (j < cols)%nat -> i <> j -> dom (Pw i j).
 
 Lemma Cn_wfl i j : (i < cols)%nat -> (j < cols)%nat -> wfl n (Cn i j) /\ length (Cn i j) = dsz.
 Proof.
@@ -346,11 +349,11 @@ Proof.
 Qed.
 
 (* value of a cross column of glwe_tensor_apply: no wrap-around happens, so V(T_ij) = V(pairwise) - V(diag_i) - V(diag_j) *)
-Lemma cval_cell_cross c i j r0 : length r0 = rsz -> i <> j ->
+Lemma cval_cell_cross c i j r0 : (i < cols)%nat -> (j < cols)%nat -> length r0 = rsz -> i <> j ->
   cval P rb c (cell_apply fft n nrm dsz hi A B i j r0) =
   cval P rb c (nrm (Pw i j)) - cval P rb c (nrm (Cn i i)) - cval P rb c (nrm (Cn j j)).
 Proof.
-  intros Hr Hij. unfold cell_apply. replace (Nat.eqb i j) with false by (symmetry; apply Nat.eqb_neq; exact Hij).
+  intros Hi Hj Hr Hij. unfold cell_apply. replace (Nat.eqb i j) with false by (symmetry; apply Nat.eqb_neq; exact Hij).
   unfold diag, pairw. replace (Nat.eqb i j) with false by (symmetry; apply Nat.eqb_neq; exact Hij).
   fold (Cn i i) (Cn j j) (Pw i j).
   destruct (nrm_shape (Cn i i)) as [Li Si]. destruct (nrm_shape (Cn j j)) as [Lj Sj]. destruct (nrm_shape (Pw i j)) as [Lp Sp].
@@ -367,8 +370,10 @@ Proof.
   - rewrite nth_vadd, nth_vsub, nth_vneg by (rewrite ?vsub_length, ?vneg_length, ?Si, ?Sj, ?Sp by exact Hu; lia).
     rewrite (wrap3_apply_val W) by apply W_pos.
     rewrite wrap_id; [ring|apply W_pos|].
-    pose proof (nrm_no_overflow (Cn i i) u c) as B1. pose proof (nrm_no_overflow (Cn j j) u c) as B2.
-    pose proof (nrm_no_overflow (Pw i j) u c) as B3.
+    destruct (Cn_wfl i i Hi Hi) as [w1 l1]. destruct (Cn_wfl j j Hj Hj) as [w2 l2]. destruct (Pw_wfl i j Hi Hj) as [w3 l3].
+    pose proof (nrm_no_overflow (Cn i i) w1 l1 (Hdom_diag i Hi) u c) as B1.
+    pose proof (nrm_no_overflow (Cn j j) w2 l2 (Hdom_diag j Hj) u c) as B2.
+    pose proof (nrm_no_overflow (Pw i j) w3 l3 (Hdom_pair i j Hi Hj Hij) u c) as B3.
     change (lim ?l u) with (lnth l u) in B1, B2, B3. fold di dj p in B1, B2, B3.
     unfold in_range, W. change (2 ^ (64 - 1)) with (4 * 2 ^ 61). lia.
   - rewrite !nth_overflow by (rewrite ?vadd_length, ?vsub_length, ?vneg_length, ?Si, ?Sj, ?Sp by exact Hu; lia). ring.
@@ -387,8 +392,6 @@ Proof.
 Qed.
 
 
-Hypothesis Hdom_diag : forall i, (i < cols)%nat -> dom (Cn i i).
-Hypothesis Hdom_pair : forall i j, (i < cols)%nat -> (j < cols)%nat -> i <> j -> dom (Pw i j).
 Hypothesis Hsigma : forall ij, length (sigma ij) = n.
 
 Definition Gm (ij : nat * nat) : list Z :=
@@ -738,32 +741,16 @@ Qed.
 
 
 (* ---------- placement in a destination with several columns ---------- *)
-(* NTT120 cnv_apply_dft / cnv_pairwise_apply_dft and cnv_by_const_apply of both families: the documented placement *)
-Theorem cnv_store_addressed_is_spec n rcols rsz rcol ms f r0 :
-  cnv_store false n rcols rsz rcol ms f r0 =
+(* cnv_apply_dft / cnv_pairwise_apply_dft / cnv_by_const_apply of both families: the documented placement
+   (column rcol receives the limbs, zero from min_size on, every other word keeps its prior content) *)
+Theorem cnv_store_is_spec n rcols rsz rcol ms f r0 :
+  cnv_store n rcols rsz rcol ms f r0 =
   cnv_store_spec n rcols rsz rcol (fun j => if Nat.ltb j ms then f j else pzero n) r0.
 Proof.
   unfold cnv_store, cnv_store_spec. f_equal. apply map_ext. intros q.
   destruct (Nat.eqb_spec (q mod rcols) rcol) as [E|E]; cbn [andb].
   - destruct (Nat.leb_spec ms (q / rcols)); destruct (Nat.ltb_spec (q / rcols) ms); try lia; reflexivity.
   - reflexivity.
-Qed.
-
-(* FFT64 cnv_apply_dft / cnv_pairwise_apply_dft: with one column the flat placement coincides with the documented one ... *)
-Theorem cnv_store_flat_one_column n rsz ms f r0 : (ms <= rsz)%nat ->
-  cnv_store true n 1 rsz 0 ms f r0 = cnv_store_spec n 1 rsz 0 (fun j => if Nat.ltb j ms then f j else pzero n) r0.
-Proof.
-  intros H. unfold cnv_store, cnv_store_spec. f_equal. apply map_ext. intros q.
-  rewrite Nat.mod_1_r, Nat.div_1_r. cbn [Nat.eqb andb].
-  destruct (Nat.leb_spec ms q); destruct (Nat.ltb_spec q ms); try lia; reflexivity.
-Qed.
-
-(* ... with two columns it does not: the product is interleaved over both columns (defect, see known_findings) *)
-Theorem cnv_store_flat_refuted : exists n rcols rsz rcol ms f r0,
-  cnv_store true n rcols rsz rcol ms f r0 <> cnv_store_spec n rcols rsz rcol (fun j => if Nat.ltb j ms then f j else pzero n) r0.
-Proof.
-  exists 1%nat, 2%nat, 2%nat, 0%nat, 2%nat, (fun j => [Z.of_nat j + 5]), [1; 2; 3; 4].
-  vm_compute. discriminate.
 Qed.
 
 (* ---------- a witness for the Section hypotheses: the normaliser of already-normalised accumulators ---------- *)
